@@ -45,6 +45,9 @@ func (h c01HTMLerStringer) String() string      { return "String():" + h.s }
 
 type c01HTMLer struct{ s string }
 
+// c01Slug is a named string type without methods: if it is printed at all, it is printed escaped
+type c01Slug string
+
 // c01Stringer is an ordinary value whose printed form is a Go string: not trusted
 type c01Stringer struct{ s string }
 
@@ -82,6 +85,9 @@ func (e *c01Env) context() *plush.Context {
 	c.Set("pmix", []interface{}{template.HTML(p), p})
 	c.Set("phrs", c01HTMLerStringer{p})
 	c.Set("pstr", c01Stringer{p})
+	c.Set("pslug", c01Slug(p))
+	c.Set("pslugs", []c01Slug{c01Slug(p)})
+	c.Set("pslugst", struct{ S c01Slug }{c01Slug(p)})
 	c.Set("ppstr", &c01Stringer{p})
 	c.Set("id", func(s string) string { return s })
 	c.Set("idi", func(v interface{}) interface{} { return v })
@@ -143,6 +149,9 @@ func c01Sources(p string) []c01Expr {
 		{"HTMLer-that-is-also-a-Stringer", "phrs", c01Val{[]c01Atom{{"trusted", p}}, false, false}},
 		{"Stringer", "pstr", c01Val{[]c01Atom{{"plain", p}}, false, false}},
 		{"pointer-to-Stringer", "ppstr", c01Val{[]c01Atom{{"plain", p}}, false, false}},
+		{"named-string-type", "pslug", c01Val{[]c01Atom{{"optplain", p}}, false, false}},
+		{"slice-of-named-strings", "pslugs", c01Val{[]c01Atom{{"optplain", p}}, false, false}},
+		{"named-string-struct-field", "pslugst.S", c01Val{[]c01Atom{{"optplain", p}}, false, false}},
 		{"debug-of-string", "debug(pv)", c01Val{[]c01Atom{{"trusted", "<pre>"}, {"plain", p}, {"trusted", "</pre>"}}, false, false}},
 	}
 	if !strings.ContainsAny(p, "\"\\") && p != "" {
@@ -241,6 +250,9 @@ var c01Emits = []c01Emit{
 	{"partial-data", func(e *c01Env, x c01Expr) string {
 		return `<%= partial("` + e.partial(`<%= d %>`) + `", {"d": ` + x.src + `}) %>`
 	}},
+	{"partial-data-under-the-key-yield", func(e *c01Env, x c01Expr) string {
+		return `<%= partial("` + e.partial(`<%= yield %>`) + `", {"yield": ` + x.src + `}) %>`
+	}},
 	{"contentOf-data", func(e *c01Env, x c01Expr) string {
 		return `<% contentFor("cfd") { %><%= d %><% } %><%= contentOf("cfd", {"d": ` + x.src + `}) %>`
 	}},
@@ -296,6 +308,14 @@ func c01Match(out string, atoms []c01Atom) *engine.Fail {
 				return engine.Failf("not-verbatim", "atom %d: %s %q not found at byte %d of output %q", ai, what, a.s, pos, out)
 			}
 			pos += len(a.s)
+		case "optplain":
+			// a value the sink may not print at all (a named string type): absent, or present like a plain string
+			rest := atoms[ai+1:]
+			f := c01Match(out[pos:], append([]c01Atom{{"plain", a.s}}, rest...))
+			if f == nil || c01Match(out[pos:], rest) == nil {
+				return nil
+			}
+			return f
 		case "plain":
 			for i := 0; i < len(a.s); i++ {
 				want := a.s[i]
@@ -352,7 +372,7 @@ func init() {
 			return s
 		},
 		Run:  c01Run,
-		Rule: "payload x source x value-route^d x emit-form x wrapper^e. Sources (28): context string, struct / pointer-struct field, map[string]string and map[string]interface{} value, []string / []interface{} / nested slice element (literal and variable index), whole []string / []interface{}, Go helper returning string / interface{}, user-function result, double- and back-quoted literal, and the trusted ones: template.HTML variable, HTMLer, raw(x), helper returning template.HTML, template.HTML / HTMLer struct fields, []template.HTML and []interface{} elements, map[string]template.HTML value, mixed []interface{}, a value that is both HTMLer and fmt.Stringer; and a plain fmt.Stringer (by value and by pointer), whose text is a Go string and therefore escaped; debug(x), whose pre tags are markup and whose printed argument is data. Value routes (12, incl. a template function with literal text before its return): \"\"+x, x+\"\", x+x, x+raw(), [x][0], [x,x], [raw(),x,raw()], {k:x}[k], Go identity helpers (string / interface{}), user function. Emit forms (10): output tag, return from if / for / fn, let then emit, loop variable, partial data, contentOf data, function argument emitted inside the body, Go helper result when the helper was called with a block. Wrappers (12): top, if, else, for, fn body, helper block via Block() / BlockWith(), contentFor->contentOf (with and without data), contentOf default block, partial, partial with layout. A reference evaluator over the route gives the expected atom list (plain | trusted | literal frame); the output is walked along it: a plain atom must appear with every < > & ' \" as an entity (any spelling) and every other byte unchanged, a trusted atom byte-identical, nothing dropped, nothing emitted twice. (typed) every scalar source and depth-1 route passed to Go helpers whose parameter (fixed, second, variadic) is typed template.HTML: plain strings are refused or stay escaped, trusted HTML passes verbatim. (bytes) every single byte 0x01..0xFF and (short) every string of length <=3 over {< > & ' \" a &amp; é 世 \\xff} through every source and the direct emit forms. Non-trivial: payload contains a special character and the route has depth >= 1.",
+		Rule: "payload x source x value-route^d x emit-form x wrapper^e. Sources (28): context string, struct / pointer-struct field, map[string]string and map[string]interface{} value, []string / []interface{} / nested slice element (literal and variable index), whole []string / []interface{}, Go helper returning string / interface{}, user-function result, double- and back-quoted literal, and the trusted ones: template.HTML variable, HTMLer, raw(x), helper returning template.HTML, template.HTML / HTMLer struct fields, []template.HTML and []interface{} elements, map[string]template.HTML value, mixed []interface{}, a value that is both HTMLer and fmt.Stringer; and a plain fmt.Stringer (by value and by pointer), whose text is a Go string and therefore escaped; values of a named string type (directly, in a slice, as a struct field: printed escaped or not at all); debug(x), whose pre tags are markup and whose printed argument is data. Value routes (12, incl. a template function with literal text before its return): \"\"+x, x+\"\", x+x, x+raw(), [x][0], [x,x], [raw(),x,raw()], {k:x}[k], Go identity helpers (string / interface{}), user function. Emit forms (11, incl. partial data under the key the layout mechanism uses, yield): output tag, return from if / for / fn, let then emit, loop variable, partial data, contentOf data, function argument emitted inside the body, Go helper result when the helper was called with a block. Wrappers (12): top, if, else, for, fn body, helper block via Block() / BlockWith(), contentFor->contentOf (with and without data), contentOf default block, partial, partial with layout. A reference evaluator over the route gives the expected atom list (plain | trusted | literal frame); the output is walked along it: a plain atom must appear with every < > & ' \" as an entity (any spelling) and every other byte unchanged, a trusted atom byte-identical, nothing dropped, nothing emitted twice. (typed) every scalar source and depth-1 route passed to Go helpers whose parameter (fixed, second, variadic) is typed template.HTML: plain strings are refused or stay escaped, trusted HTML passes verbatim. (bytes) every single byte 0x01..0xFF and (short) every string of length <=3 over {< > & ' \" a &amp; é 世 \\xff} through every source and the direct emit forms. Non-trivial: payload contains a special character and the route has depth >= 1.",
 		Bound: func(th bool) string {
 			if th {
 				return "9 payloads x value routes d<=2 x 10 emit forms x wrappers e<=2"
